@@ -51,11 +51,22 @@ def generate(R: Draw, tier: str) -> dict:
         lib, rs = schemas.get(sref)
         g = docgen(rs)
         doc = g.doc(R, R.weighted([("small", 4), ("medium", 3)]))
-        cur = P.build(lib, doc)
         ops = []
+        first = None
+        if rs.mark_names and R.bool(0.3):
+            # neighbouring text with marks of one type and different attributes (link a | link b), then a mark
+            # operation across them: the steps it records (one removal per displaced mark) must undo exactly
+            from .c13 import _removal_focus
+
+            f = _removal_focus(R, g, rs, doc)
+            if f is not None:
+                doc, rop = f
+                m = rop.pop("focus_type")
+                first = rop if R.bool(0.4) else {"op": "add_mark", "from": rop["from"], "to": rop["to"], "mark": g.mark(R, m)}
+        cur = P.build(lib, doc)
         n_ops = R.int(1, 8 if tier == "quick" else 14)
-        for _ in range(n_ops):
-            op = go.gen_op(R, g, lib, cur, HIST_OPS)
+        for j in range(n_ops):
+            op = first if (j == 0 and first is not None) else go.gen_op(R, g, lib, cur, HIST_OPS)
             if not _declared_only(op) or not go.op_in_domain(rs, P.plain(cur), op, declared_attrs_only=True):
                 continue
             ops.append(op)
@@ -89,7 +100,16 @@ def generate(R: Draw, tier: str) -> dict:
             if R.bool(0.7):
                 desc = {"k": "addNodeMark", "pos": pos, "mark": g.mark(R, mname)}
             else:
-                desc = {"k": "removeNodeMark", "pos": pos, "mark": R.choice(k.p["m"]) if R.bool(0.8) else g.mark(R, mname)}
+                rmark = R.choice(k.p["m"]) if R.bool(0.6) else g.mark(R, mname)
+                with_attrs = [m for m in k.p["m"] if rs.marks[m[0]].get("attrs")]
+                if with_attrs and R.bool(0.4):
+                    # same type as a mark on the node, other attributes: a removal that must remove nothing
+                    base = R.choice(with_attrs)
+                    for _ in range(4):
+                        rmark = g.mark(R, base[0])
+                        if rmark != base:
+                            break
+                desc = {"k": "removeNodeMark", "pos": pos, "mark": rmark}
     if how == "op":
         kinds = ["replace", "replace_range", "delete", "insert", "wrap", "lift", "split", "join", "set_node_markup", "set_block_type", "add_node_mark", "remove_node_mark", "set_node_attribute", "set_doc_attribute"]
         op = go.gen_op(R, g, lib, node, kinds, steer=0.9)
